@@ -431,6 +431,21 @@ func (F *bfn) defFacts(z *zone, site ssa.Instruction) {
 					}
 				}
 			case *ssa.Slice:
+				// make([]T, p+q)[p:] has q elements
+				if msl, ok := F.rep(x.X).(*ssa.MakeSlice); ok && x.Low != nil && x.High == nil {
+					if sum, ok := F.rep(msl.Len).(*ssa.BinOp); ok && sum.Op == token.ADD {
+						lo := F.linear(x.Low)
+						for _, pq := range [][2]ssa.Value{{sum.X, sum.Y}, {sum.Y, sum.X}} {
+							if F.linear(pq[0]) == lo {
+								rest, me := F.linear(pq[1]), F.lenLin(x)
+								if !rest.neg && !me.neg {
+									z.add(me.a, rest.a, rest.k-me.k)
+									z.add(rest.a, me.a, me.k-rest.k)
+								}
+							}
+						}
+					}
+				}
 				me := F.lenLin(x)
 				src := F.lenLin(x.X)
 				lo := zLin{a: "0"}
@@ -455,6 +470,27 @@ func (F *bfn) defFacts(z *zone, site ssa.Instruction) {
 				}
 			case *ssa.Phi:
 				F.phiFacts(z, x)
+				// counters kept in step: their difference is constant
+				for _, in2 := range x.Block().Instrs {
+					y, isPhi := in2.(*ssa.Phi)
+					if !isPhi {
+						break
+					}
+					if y == x || !types.Identical(x.Type(), y.Type()) {
+						continue
+					}
+					same := func(a, b ssa.Value) bool {
+						la, lb := F.linear(a), F.linear(b)
+						return la == lb
+					}
+					if d, ok := lockstep(x, y, same); ok {
+						lx, ly := F.linear(x), F.linear(y)
+						if !lx.neg && !ly.neg {
+							z.add(lx.a, ly.a, d+ly.k-lx.k)  // x - y <= d
+							z.add(ly.a, lx.a, -d+lx.k-ly.k) // y - x <= -d
+						}
+					}
+				}
 			case *ssa.BinOp:
 				if x.Op == token.QUO {
 					// unsigned x / y <= x (y == 0 panics, so y >= 1 wherever the result exists)
